@@ -537,7 +537,7 @@ func init() {
 				c21Marshal(c, w.Fields, configuration.FieldNameStyle(w.Style), configuration.FieldOmitBehavior(w.Omit), "replay")
 				return c.FirstViolation()
 			}
-			return "unmarshal witnesses are replayed by re-running the check (document recorded in the witness)"
+			return "NOT-REPLAYABLE: unmarshal witnesses carry the document and struct description; re-run `scripts/check.sh C21 quick`"
 		},
 	})
 }
